@@ -263,6 +263,9 @@ function exprForms() {
     ['object', M.mem(M.obj([{ key: 'k', value: x }]), 'k')],
     ['call', M.call(M.mem(id('m'), 'f'), [x])],
     ['string', M.bin('+', M.lit("'s'"), x)],
+    // a string literal as the RIGHT operand of the user's own + (the shape the parser itself builds for "binding, then text")
+    ['string-right', M.bin('+', x, M.lit("'s'"))],
+    ['string-both', M.bin('+', M.lit("'p'"), M.lit("'s'"))],
     ['paren-bitor', M.bin('^', M.grp(M.bin('|', x, y)), M.lit('1'))],
     ['typeof', M.un('typeof', x)],
     ['length', M.mem(id('list'), 'length')],
@@ -295,6 +298,10 @@ function bindingPositions() {
   return [
     ['text', (e) => [W, text(E(e))]],
     ['text-mixed', (e) => [W, text('a', E(e), 'b')]],
+    // the binding first, static text behind it, and a second binding behind that
+    ['text-leading', (e) => [W, text(E(e), 'b')]],
+    ['text-leading-two', (e) => [W, text(E(e), ' b ', E(id('y')))]],
+    ['attr-leading', (e) => [W, el('v', [A.plain('p', [E(e), 'b']), A.cls([E(e), ' c ', E(id('y'))])])]],
     ['attr', (e) => [W, el('v', [A.plain('p', E(e))])]],
     ['attr-mixed', (e) => [W, el('v', [A.plain('p', ['a', E(e)])])]],
     ['class', (e) => [W, el('v', [A.cls(E(e))])]],
